@@ -20,6 +20,7 @@ import (
 	"runtime"
 	"runtime/debug"
 	"strings"
+	"time"
 
 	"github.com/aergoio/aergo/v2/p2p/p2pcommon"
 	v030 "github.com/aergoio/aergo/v2/p2p/v030"
@@ -28,6 +29,12 @@ import (
 )
 
 const allocSlack = 64 << 10
+
+// development aid only (never enters a verdict): C18_TIMING=1 prints wall time per case class
+var (
+	timing    = os.Getenv("C18_TIMING") != ""
+	classTime = map[string]time.Duration{}
+)
 
 type nopCloser struct{}
 
@@ -129,7 +136,9 @@ type framer struct {
 	pend    string
 	replay  bool
 	cache   struct{ key string; s []byte }
-	nsmall  int
+	arena   []byte
+	sbuf    bytes.Buffer
+	sinceGC uint64
 	hugeBad int // circuit breaker for the huge class
 	maxHonest, maxAny uint64
 }
@@ -150,6 +159,9 @@ func framingChildMain() {
 		f.runCase(&sc)
 	} else {
 		f.generate()
+	}
+	if timing {
+		fmt.Fprintln(os.Stderr, "framing class times:", classTime)
 	}
 	f.r.Set("framing_limit", f.limit)
 	f.r.Set("framing_alloc_bound", uint64(f.limit)+allocSlack)
@@ -173,17 +185,37 @@ func (f *framer) build(sc *streamCase) ([]byte, []expect) {
 	var full []byte
 	var specExp []expect
 	var accepted []bool
+	var pays [][]byte
 	if sc.ViaReal {
 		key = "" // always through the real writer
 	}
 	if key != "" && key == f.cache.key {
 		full = f.cache.s
 	} else {
-		var buf bytes.Buffer
+		// payloads and the stream live in buffers that are reused from case to case: the only large
+		// allocation left in this process is the one under test
+		need := 0
+		for _, fs := range sc.Frames {
+			need += fs.PayLen
+		}
+		if cap(f.arena) < need {
+			f.arena = make([]byte, need+need/8)
+		}
+		arena := f.arena[:0]
+		carve := func(fs frameSpec) []byte {
+			n := len(arena)
+			arena = arena[:n+fs.PayLen]
+			fillInto(arena[n:], fs.PaySeed)
+			return arena[n:len(arena):len(arena)]
+		}
+		buf := &f.sbuf
+		buf.Reset()
 		if sc.ViaReal {
-			w := v030.NewV030ReadWriter(bytes.NewReader(nil), &buf, nopCloser{})
+			w := v030.NewV030ReadWriter(bytes.NewReader(nil), buf, nopCloser{})
 			for i, fs := range sc.Frames {
-				pay := fill(fs.PaySeed, fs.PayLen)
+				pay := carve(fs)
+				pays = append(pays, pay)
+				buf.Grow(hdrLen + fs.PayLen)
 				msg := p2pcommon.NewMessageValue(p2pcommon.SubProtocol(fs.Sub), p2pcommon.MsgID(id16(fs.ID)), p2pcommon.MsgID(id16(fs.Org)), fs.TS, pay)
 				before := buf.Len()
 				err, pan := safeWrite(w, msg)
@@ -205,6 +237,9 @@ func (f *framer) build(sc *streamCase) ([]byte, []expect) {
 				if uint32(fs.PayLen) > f.limit {
 					f.r.Count("framing/writer_oversize_accepted", 1)
 				}
+				if fs.PayLen > 1<<17 {
+					continue
+				}
 				// independent encoding of the same message, for the evidence only
 				ind := append(encodeHeader(frameSpec{Sub: fs.Sub, Len: uint32(fs.PayLen), TS: fs.TS, ID: fs.ID, Org: fs.Org}), pay...)
 				if bytes.Equal(ind, buf.Bytes()[before:]) {
@@ -216,7 +251,7 @@ func (f *framer) build(sc *streamCase) ([]byte, []expect) {
 		} else {
 			for _, fs := range sc.Frames {
 				buf.Write(encodeHeader(fs))
-				buf.Write(fill(fs.PaySeed, fs.PayLen))
+				buf.Write(carve(fs))
 			}
 		}
 		if sc.Raw != "" {
@@ -225,7 +260,8 @@ func (f *framer) build(sc *streamCase) ([]byte, []expect) {
 		}
 		full = buf.Bytes()
 		if key != "" && len(full) > 1<<16 {
-			f.cache.key, f.cache.s = key, full
+			f.cache.key, f.cache.s = key, append(f.cache.s[:0], full...)
+			full = f.cache.s
 		}
 	}
 	s := full
@@ -243,7 +279,7 @@ func (f *framer) build(sc *streamCase) ([]byte, []expect) {
 				specExp = append(specExp, expect{Err: true, Why: "oversize"})
 				return s, specExp
 			}
-			e := expect{Sub: fs.Sub, TS: fs.TS, ID: id16(fs.ID), Org: id16(fs.Org), Payload: fill(fs.PaySeed, fs.PayLen)}
+			e := expect{Sub: fs.Sub, TS: fs.TS, ID: id16(fs.ID), Org: id16(fs.Org), Payload: pays[i]}
 			specExp = append(specExp, e)
 		}
 		specExp = append(specExp, expect{Err: true, Why: "eof-at-boundary"})
@@ -309,6 +345,10 @@ func caseKey(sc *streamCase) string {
 }
 
 func (f *framer) runCase(sc *streamCase) {
+	if timing {
+		t0 := time.Now()
+		defer func() { classTime[sc.Class] += time.Since(t0) }()
+	}
 	s, exp := f.build(sc)
 	risky := f.replay
 	for _, e := range exp {
@@ -333,7 +373,6 @@ func (f *framer) runCase(sc *streamCase) {
 		f.r.Violation("framing/"+kind+"/"+sc.Class, fmt.Sprintf("%s [case %s; reader=%s; stream length %d]", desc, sc.Note, readerModeNames[sc.Reader%numReaderModes], len(s)),
 			replayCase{Framing: sc})
 	}
-	big := len(s) > 1<<16
 	for i, cr := range res {
 		e := exp[i]
 		f.r.Eval(1)
@@ -376,6 +415,18 @@ func (f *framer) runCase(sc *streamCase) {
 		}
 		f.r.Count("framing/expect_message", 1)
 		if cr.err != nil {
+			if sc.Reader == 4 {
+				// is the loss specific to an io.Reader that hands over its last bytes together with io.EOF
+				// (allowed by the io.Reader contract)?  then it is one finding, whatever the stream class
+				alt := *sc
+				alt.Reader = 0
+				if r2 := execute(&alt, s, i+1); len(r2) > i && r2[i].err == nil && r2[i].pan == "" {
+					f.r.Violation("framing/lost-message/final-bytes-returned-with-eof", fmt.Sprintf("ReadMsg call %d failed (%v) on a complete valid frame (%s) when the underlying io.Reader returns the "+
+						"frame's last bytes together with io.EOF (n>0, io.EOF — permitted by the io.Reader contract); the same stream is read correctly when EOF comes with n=0 [case %s; stream length %d]",
+						i, cr.err, e, sc.Note, len(s)), replayCase{Framing: sc})
+					break
+				}
+			}
 			viol("lost-message", fmt.Sprintf("ReadMsg call %d failed (%v) on a complete valid frame: %s", i, cr.err, e))
 			break
 		}
@@ -398,10 +449,13 @@ func (f *framer) runCase(sc *streamCase) {
 	f.r.Count("framing/cases/"+sc.Class, 1)
 	f.r.Count("framing/reader/"+readerModeNames[sc.Reader%numReaderModes], 1)
 	f.r.Nontriv(caseKey(sc))
-	if big {
+	f.sinceGC += 4096
+	for _, cr := range res {
+		f.sinceGC += cr.delta
+	}
+	if f.sinceGC > 24<<20 {
 		res, s, exp = nil, nil, nil
-		runtime.GC()
-	} else if f.nsmall++; f.nsmall%3000 == 0 {
+		f.sinceGC = 0
 		runtime.GC()
 	}
 }
@@ -553,6 +607,9 @@ func (f *framer) generate() {
 	for i := 0; i < c.Pick(5000, 60000); i++ {
 		var raw []byte
 		kind := i % 4
+		if kind == 2 && i%40 != 2 {
+			kind = 1 // the near-limit kind costs an 8 MiB allocation per case: one in ten of its share
+		}
 		switch kind {
 		case 0: // pure noise
 			raw = make([]byte, r.Intn(300))
